@@ -16,6 +16,7 @@ package mutable
 
 import (
 	"sync"
+	"sync/atomic"
 	"time"
 
 	"github.com/VictoriaMetrics/VictoriaMetrics/lib/fasttime"
@@ -94,7 +95,7 @@ func (p *MemTablePool) SetExpire(v uint64) {
 }
 
 func (p *MemTablePool) Get(engineType config.EngineType) *MemTable {
-	p.active = fasttime.UnixTimestamp()
+	atomic.StoreUint64(&p.active, fasttime.UnixTimestamp())
 
 	var memTbl *MemTable
 	select {
@@ -120,7 +121,7 @@ func (p *MemTablePool) Put(tb *MemTable) {
 }
 
 func (p *MemTablePool) Expired() bool {
-	return p.active < (fasttime.UnixTimestamp() - p.expire)
+	return atomic.LoadUint64(&p.active) < (fasttime.UnixTimestamp() - p.expire)
 }
 
 func (p *MemTablePool) Size() int {
